@@ -40,7 +40,7 @@ fn hash(a: &[&str]) -> String {
         Ok(s) => s,
         Err(e) => return format!("ERR:{:?}", e),
     };
-    let mut tag = vec![0u8; tl];
+    let mut tag = vec![0xa5u8; tl];
     argon2::argon2_at(&params, &pwd, &salt, &key, &aad, &mut tag);
     match fixed(&params, tl, &pwd, &salt, &key, &aad) {
         Some(t2) => format!("{},{}", hex(&tag), hex(&t2)),
